@@ -38,6 +38,55 @@ def init_aliases(fn_init: FunctionInfo) -> dict[str, str]:
     return out
 
 
+def live_constant_locals(cfg: CFG, env: dict) -> dict:
+    """name -> constant for locals (not in env, not parameters) all of whose
+    live assignments evaluate to one and the same constant."""
+    live = cfg.live_nodes()
+    vals: dict[str, set] = {}
+    bad: set[str] = set()
+    params = set(cfg.fn.params())
+    for n in cfg.nodes:
+        a = n.ast
+        if n.kind != "stmt" or not isinstance(a, (ast.Assign, ast.AnnAssign,
+                                                  ast.AugAssign)):
+            continue
+        tgts = a.targets if isinstance(a, ast.Assign) else [a.target]
+        for t in tgts:
+            for x in ast.walk(t):
+                if isinstance(x, ast.Name) and isinstance(x.ctx, ast.Store):
+                    if n not in live:
+                        continue
+                    if isinstance(a, ast.AnnAssign) and a.value is None:
+                        continue  # a bare declaration
+                    if isinstance(a, ast.AugAssign) or \
+                            not isinstance(t, ast.Name):
+                        bad.add(x.id)
+                        continue
+                    v = const_eval(a.value, env)
+                    if v is UNKNOWN or v is TRUTHY or v is FALSY:
+                        bad.add(x.id)
+                    else:
+                        vals.setdefault(x.id, set()).add(repr(v))
+                        vals.setdefault("__v__" + x.id, set())
+                        vals["__v__" + x.id] = {v} if not isinstance(
+                            v, (list, dict, set)) else set()
+    # loop / with / except targets are not constants
+    for n in cfg.nodes:
+        if n.kind in ("for", "with", "except") and n.ast is not None:
+            for x in ast.walk(n.ast):
+                if isinstance(x, ast.Name) and isinstance(x.ctx, ast.Store):
+                    bad.add(x.id)
+    out = {}
+    for name, reprs in vals.items():
+        if name.startswith("__v__") or name in bad or name in env or \
+                name in params or len(reprs) != 1:
+            continue
+        v = vals.get("__v__" + name)
+        if v:
+            out[name] = next(iter(v))
+    return out
+
+
 def residual(ctx: Context, fn: FunctionInfo, env: dict, depth: int = 0,
              seen: set | None = None,
              class_env: dict | None = None) -> list[Residual]:
@@ -52,6 +101,14 @@ def residual(ctx: Context, fn: FunctionInfo, env: dict, depth: int = 0,
         for k, v in class_env[fn.cls.fq].items():
             full_env.setdefault(k, v)
     cfg = CFG(fn, env=full_env)
+    # locals whose live assignments all give the same constant are constants
+    # too (cycle_length = 1 in the branch that remains under shuffle = 0)
+    for _ in range(3):
+        extra = live_constant_locals(cfg, full_env)
+        if not extra:
+            break
+        full_env.update(extra)
+        cfg = CFG(fn, env=full_env)
     out: list[Residual] = []
     live = cfg.live_nodes()
     sites: list[tuple[ast.Call, Node | None]] = [
